@@ -510,6 +510,11 @@ func MethodValueCallees(ci ssa.CallInstruction) []*ssa.Function {
 			out = append(out, x)
 		case *ssa.ChangeType:
 			walk(x.X)
+		case *ssa.Const:
+			// the nil a variable starts with (or a lookup's "no such handler"): calling it cannot return
+			if !x.IsNil() {
+				ok = false
+			}
 		default:
 			ok = false
 		}
